@@ -437,13 +437,13 @@ void Curve::interpolation(const Array<Vec2> points, double* angles, bool* angle_
 
 void Curve::arc(double radius_x, double radius_y, double initial_angle, double final_angle,
                 double rotation) {
-    const double full_angle = fabs(final_angle - initial_angle);
     const double max_radius = radius_x > radius_y ? radius_x : radius_y;
-    uint64_t num_points = 1 + arc_num_points(full_angle, max_radius, tolerance);
-    if (num_points < GDSTK_MIN_POINTS) num_points = GDSTK_MIN_POINTS;
-
     initial_angle = elliptical_angle_transform(initial_angle - rotation, radius_x, radius_y);
     final_angle = elliptical_angle_transform(final_angle - rotation, radius_x, radius_y);
+    // The arc is sampled uniformly in the elliptical parameter
+    const double full_angle = fabs(final_angle - initial_angle);
+    uint64_t num_points = 1 + arc_num_points(full_angle, max_radius, tolerance);
+    if (num_points < GDSTK_MIN_POINTS) num_points = GDSTK_MIN_POINTS;
     const double cr = cos(rotation);
     const double sr = sin(rotation);
     double x = radius_x * cos(initial_angle);
